@@ -66,6 +66,12 @@ def success_oracle(ctx, w, sysm, cfg, x, done, prefix=""):
              sfin[0][2] == ConditionCode.NO_ERROR and sfin[0][3] == DeliveryCode.DATA_COMPLETE,
              lambda: {"sig": f"sender finished with {sfin[0][2:5]}"})
     ctx.prop(prefix + "both_idle", sysm.src.idle and sysm.dst.idle)
+    if sysm.K == 0:
+        # on a fault-free link the handlers themselves must finish the exchange: no PDU may be left
+        # for the entity-level responder (that assumption belongs to C03 only)
+        used = [t for t in sysm.trace if len(t) == 2 and str(t[1]).startswith("ack-inactive")]
+        ctx.prop(prefix + "no_entity_level_response_needed", not used,
+                 lambda: {"sig": f"{used[0][0]}: {used[0][1]}"})
     ctx.prop(prefix + "file_identical", sysm.identical(x), lambda: {"sig": "destination file differs from the source"})
 
 
@@ -115,6 +121,9 @@ def h_metadata_only(ctx, id_w, seq_w):
              lambda: {"sig": f"{sysm.exceptions[0][0]}: {rigs.exc_sig(sysm.exceptions[0][1].exc)}"})
     ctx.prop("runs_to_completion", sysm.src.idle and sysm.dst.idle,
              lambda: {"sig": f"metadata only: source {sysm.src.h.step.name}, destination {sysm.dst.h.step.name}"})
+    used = [t for t in sysm.trace if len(t) == 2 and str(t[1]).startswith("ack-inactive")]
+    ctx.prop("no_entity_level_response_needed", not used,
+             lambda: {"sig": f"metadata only: {used[0][0]}: {used[0][1]}"})
     ctx.prop("no_fault_callback", not sysm.src.fh.ev and not sysm.dst.fh.ev)
     ctx.prop("nothing_written", not [c for c in sysm.dst.fs.calls if c[0] in ("write", "create", "truncate", "delete")])
 
